@@ -149,6 +149,11 @@ class Tokenizer:
                 elif not tok.string:
                     # empty new line added by the tokenizer
                     continue
+            elif tok.type == Token.ENDMARKER:
+                # end of input right after the colon: hand the end marker back to the parser
+                self._stack.append(tok)
+                self._with_macro = False
+                break
 
             # update captured lines
             if tok.start[0] not in lines:
